@@ -12,7 +12,7 @@ use sip_types::header::typed::{Accept, Allow, Supported, Via};
 use sip_types::host::{Host, HostPort};
 use sip_types::msg::{MessageLine, StatusLine};
 use sip_types::parse::{ParseCtx, Parser};
-use sip_types::print::{AppendCtx, BytesPrint, PrintCtx};
+use sip_types::print::{AppendCtx, BytesPrint, PrintCtx, UriContext};
 use sip_types::uri::Uri;
 use sip_types::{Code, Headers, Method, Name};
 use std::fmt::Write;
@@ -178,7 +178,7 @@ impl Endpoint {
 
             let ctx = PrintCtx {
                 method: Some(&message.msg.line.method),
-                uri: None,
+                uri: Some(UriContext::ReqUri),
             };
 
             message
